@@ -14,7 +14,7 @@ import (
 )
 
 type C20Op struct {
-	Op string `json:"op"` // add | flush | has | len | reopen | bulk
+	Op string `json:"op"` // add | flush | has | len | reopen | bulk | fault (the H-th read from now fails once; disarmed at the next flush / reopen)
 	H  int    `json:"h,omitempty"`
 	// reopen: How = 0 fresh handle at offset 0; 1 handle positioned at the end of the file (as after measuring
 	// it); 2 the same handle again without closing (a second HashSet over a handle an earlier one flushed through)
@@ -106,6 +106,13 @@ func init() {
 			for i := range p.Ops {
 				if p.Ops[i].Op == "reopen" {
 					p.Ops[i].How = r.Intn(3)
+				}
+			}
+			if p.Batch == 0 && r.Chance(0.35) && len(p.Ops) > 3 {
+				// transient read errors while adding and asking (simulated file only)
+				for k := r.Range(1, 4); k > 0; k-- {
+					at := r.Intn(len(p.Ops))
+					p.Ops = append(p.Ops[:at:at], append([]C20Op{{Op: "fault", H: r.Range(1, 12)}}, p.Ops[at:]...)...)
 				}
 			}
 			if tier == "thorough" && r.Chance(0.2) {
@@ -240,14 +247,44 @@ func execC20(t *testing.T, raw json.RawMessage, res *Result) {
 		return true
 	}
 
+	// loud runs f; an error or a panic of the hash set both count as a loud failure
+	loud := func(f func() error) (err error) {
+		defer func() {
+			if e := recover(); e != nil {
+				err = fmt.Errorf("panic: %v", e)
+			}
+		}()
+		return f()
+	}
+	disarm := func() {
+		if sf != nil {
+			sf.FailReadIn = 0
+		}
+	}
+	faulted := func() bool { return sf != nil && sf.ReadFaults > 0 }
 	for i, op := range p.Ops {
 		switch op.Op {
+		case "fault":
+			if p.RealFile || sf == nil || p.Batch != 0 {
+				continue // only where Add never flushes by itself: a read error inside a flush is another matter
+			}
+			if op.H < 1 || op.H > 1000 {
+				res.Invalid("fault")
+				return
+			}
+			sf.FailReadIn = op.H
 		case "add":
 			h := hashFromIndex(op.H) // fresh slice per Add
 			if flushed[string(h)] || pending[string(h)] {
 				repeats++
 			}
-			if err := hs.Add(h); err != nil {
+			err := loud(func() error { return hs.Add(h) })
+			for tries := 0; err != nil && faulted() && tries < 3; tries++ {
+				// a read error was reported: the caller tries again, and the hash must then be in
+				res.probe("add_retried_after_read_error", 1)
+				err = loud(func() error { return hs.Add(hashFromIndex(op.H)) })
+			}
+			if err != nil {
 				res.Violate("hashset-error", "op %d Add: %v", i, err)
 				return
 			}
@@ -260,6 +297,7 @@ func execC20(t *testing.T, raw json.RawMessage, res *Result) {
 			// only through the model: the batch holds pending entries not yet on file.
 			_ = bs
 		case "bulk":
+			disarm()
 			if op.N < 0 || op.N > 20000 || bulkNext+op.N > 60000 {
 				res.Invalid("bulk")
 				return
@@ -274,6 +312,7 @@ func execC20(t *testing.T, raw json.RawMessage, res *Result) {
 				pending[string(h)] = true
 			}
 		case "flush":
+			disarm()
 			if err := hs.Flush(); err != nil {
 				res.Violate("hashset-error", "op %d Flush: %v", i, err)
 				return
@@ -288,7 +327,12 @@ func execC20(t *testing.T, raw json.RawMessage, res *Result) {
 			}
 		case "has":
 			h := hashFromIndex(op.H)
-			ok, err := hs.Has(h)
+			var ok bool
+			err := loud(func() (e error) { ok, e = hs.Has(h); return })
+			for tries := 0; err != nil && faulted() && tries < 3; tries++ {
+				res.probe("has_retried_after_read_error", 1)
+				err = loud(func() (e error) { ok, e = hs.Has(h); return })
+			}
 			if err != nil {
 				res.Violate("hashset-error", "op %d Has: %v", i, err)
 				return
@@ -309,6 +353,7 @@ func execC20(t *testing.T, raw json.RawMessage, res *Result) {
 				return
 			}
 		case "reopen":
+			disarm()
 			// flush first (the statement speaks of the set "once flushed")
 			if err := hs.Flush(); err != nil {
 				res.Violate("hashset-error", "op %d Flush: %v", i, err)
@@ -365,9 +410,13 @@ func execC20(t *testing.T, raw json.RawMessage, res *Result) {
 			return
 		}
 	}
+	disarm()
 	if err := hs.Flush(); err != nil {
 		res.Violate("hashset-error", "final Flush: %v", err)
 		return
+	}
+	if faulted() {
+		res.fault("read_error", sf.ReadFaults)
 	}
 	for k := range pending {
 		flushed[k] = true
